@@ -83,6 +83,8 @@ class Cnl2asp:
             self.cnl_input = cnl_input.read()
 
     def parse_input(self):
+        # every parse starts from an empty signature table: the result must not depend on earlier calls in the process
+        SignatureManager.signatures = []
         with open(os.path.join(os.path.dirname(__file__), "grammar.lark"), "r") as grammar:
             cnl_parser = Lark(grammar.read(), propagate_positions=True)
             specification: SpecificationComponent = CNLTransformer().transform(cnl_parser.parse(self.cnl_input))
